@@ -134,6 +134,7 @@ def _id(x):
 
 CC = {"Request": RequestCacheControl, "Response": ResponseCacheControl}
 ETAG_T = ["a", "b c", "\xe9", ",", "W/x", "a,b", " a", "\\"]
+ETAG_T2 = ["*", "W/", "w/a", ", ", "**", "*a", "W/*", "a "]      # look like '*', the weak prefix, a separator
 
 
 def _mk_range(v):
@@ -556,6 +557,8 @@ def units(tier):
     for i in range(0, 1 << len(ETAG_T), 16):
         us.append(("etags", i, i + 16))
     us.append(("etag-single",))
+    for i in range(0, 1 << len(ETAG_T2), 16):
+        us.append(("etags2", i, i + 16))
     for i in range(4):
         us.append(("ranges", i))
     us.append(("content-ranges",))
@@ -874,6 +877,19 @@ def _run_unit(unit, R, tier):
             check(R, "etags", ((), (), True))
             R.sample({"family": "etags", "strong": ETAG_T[:2], "weak": ETAG_T[2:4]})
         return
+    if kind == "etags2":
+        n = len(ETAG_T2)
+        for sm in range(unit[1], unit[2]):
+            strong = tuple(ETAG_T2[i] for i in range(n) if sm >> i & 1)
+            for wm in range(1 << n):
+                weak = tuple(ETAG_T2[i] for i in range(n) if wm >> i & 1)
+                check(R, "etags", (strong, weak, False))
+        for e in ETAG_T2:
+            for weak in (False, True):
+                check(R, "etag-single", (e, weak))
+            check(R, "if-range", ("etag", e), ambiguous=stdlib_reads_as_date(http.quote_etag(e)))
+        U.used.add("etags2")
+        return
     if kind == "ranges":
         for i, rl in enumerate(range_lists()):
             if i % 4 != unit[1]:
@@ -882,6 +898,16 @@ def _run_unit(unit, R, tier):
             R.use("range-ascending" if asc else "range-unordered")
             for units_ in ("bytes", "items"):
                 check(R, "range", (units_, rl), lenient_none=not asc)
+        if unit[1] == 0:
+            for units_ in ("bytes", "items", "pages", "x-rows", "b"):
+                for s_ in (0, 1, 9, 10, 4294967296):
+                    check(R, "range", (units_, [(s_, None)]))
+                    check(R, "range", (units_, [(-max(s_, 1), None)]))
+                    check(R, "range", (units_, [(0, s_ + 1)]))
+                    check(R, "range", (units_, [(0, 1), (s_ + 1, None)]))
+                    check(R, "range", (units_, [(0, 1), (1, 2), (s_ + 2, None)]))
+                    check(R, "range", (units_, [(0, 1), (-max(s_, 1), None)]))
+            U.used.add("range-open-forms")
         if unit[1] == 0:
             R.sample({"family": "range", "value": [(0, 2), (2, 5), (-3, None)]})
         return
@@ -1179,7 +1205,7 @@ def finalize(R, tier):
                                               "raw-dict-rfc2231", "raw-options-rfc2231", "rawg-hit:range",
                                               "rawg-hit:content-range", "rawg-hit:date", "rawg-hit:age",
                                               "rawg-hit:if-range-date", "rawg-hit:if-range-etag", "rawg-hit:auth",
-                                              "rawg-hit:cache-control", "rawg-hit:csp"}
+                                              "rawg-hit:cache-control", "rawg-hit:csp", "etags2", "range-open-forms"}
     if tier == "thorough":
         need |= {"strcrit", "pairs33", "triples2", "auth-deep"}
     missing = need - R.used
